@@ -222,6 +222,7 @@ def _alloc_inv(c, L):
         "held": _held_rel(c, h, Vn),
         "am_frame": _am_frame(c, h),
         "wf": wf_resources(h, self_),
+        "recorded": z3.Implies(rem < q, h.d_dom(AM, m, comp)),
     }
 
 
@@ -276,6 +277,7 @@ def _alloc_ens(c):
         "allocate.held_grows_by_what_was_taken": _held_rel(c, c.post, V1),
         "allocate.other_computations_untouched": _am_frame(c, c.post),
         "allocate.wf": wf_resources(c.post, self_),
+        "allocate.recorded": z3.Implies(q > 0, c.post.d_dom(AM, m, comp)),
     }
 
 
@@ -335,6 +337,7 @@ def _dealloc_ens(c):
         "dealloc.removed": z3.Not(c.post.d_dom(AM, m, comp)),
         "dealloc.others_kept": z3.ForAll([x], z3.Implies(x != comp, z3.And(c.post.d_dom(AM, m, x) == c.pre.d_dom(AM, m, x))), patterns=[c.post.d_dom(AM, m, x)]),
         "dealloc.len": c.post.c_len(AM, m) == c.pre.c_len(AM, m) - 1,
+        "dealloc.wf": wf_resources(c.post, self_),
     }
 
 
@@ -346,6 +349,7 @@ Contract(
     modifies=_dealloc_mod,
     loops={0: Loop(inv=_dealloc_inv, lemmas=_dealloc_lemmas, modifies=lambda c: {c.pre.carr(RV, "val")[0]: [_dealloc_names(c)[1]]})},
     entry_facts=lambda c: [F("sum.H.axiom", z3.ForAll([z3.Const("de0_k", RS)], Hs(c.pre.l_elems(AL, _dealloc_names(c)[4]), z3.Const("de0_k", RS), 0) == 0))],
+    exit_facts=lambda c: [F("sum.H.nonneg", z3.ForAll([z3.Const("dx_k", RS)], Σ.lem_Hs_nonneg(c.pre.l_elems(AL, _dealloc_names(c)[4]), z3.Const("dx_k", RS), c.pre.c_len(AL, _dealloc_names(c)[4]))))],
     ensures=_dealloc_ens,
     props=P04,
 )
@@ -385,6 +389,12 @@ def disjoint_request(h, self_, req):
     k = z3.Const(H.fresh_name("dj_k"), RS)
     Ka, Kb = z3.Select(K(h, d2), a), z3.Select(K(h, d2), b)
     return z3.ForAll([a, b, k], z3.Implies(z3.And(0 <= a, a < N(h, d2), 0 <= b, b < N(h, d2), a != b, h.d_dom(RV, d, k)), z3.Not(z3.And(matches(k, Ka), matches(k, Kb)))))
+
+
+def demands_something(h, req):
+    d2 = rv(h, req)
+    j = z3.Int(H.fresh_name("ds_j"))
+    return z3.Exists([j], z3.And(0 <= j, j < N(h, d2), z3.Select(V(h, d2), z3.Select(K(h, d2), j)) > 0))
 
 
 def _am_names(c):
@@ -432,6 +442,7 @@ def _allocm_do_inv(c, L):
         "held": _held_rel_m(c, h, Vn),
         "am_frame": _am_frame_m(c, h),
         "wf": wf_resources(h, self_),
+        "recorded": z3.Implies(z3.Exists([j], z3.And(0 <= j, j < L.i, z3.Select(V2, z3.Select(K2, j)) > 0)), h.d_dom(AM, m, comp)),
     }
 
 
@@ -492,6 +503,7 @@ def _allocm_ens(c):
         "allocmulti.held_grows_by_what_was_taken": _held_rel_m(c, c.post, V1),
         "allocmulti.other_computations_untouched": _am_frame_m(c, c.post),
         "allocmulti.wf": wf_resources(c.post, self_),
+        "allocmulti.recorded": z3.Implies(demands_something(c.pre, req), c.post.d_dom(AM, m, comp)),
     }
 
 
@@ -516,3 +528,8 @@ Contract(
     allocates=True,
     props=P04,
 )
+
+
+@lemma("C04")
+def sum_theory_induction_steps():
+    return Σ.induction_obligations()
